@@ -437,6 +437,17 @@ def measure(pt):
     elif pt.mech in ("LaplaceTruncated", "LaplaceFolded"):
         s, prec = K2.measure_inside(cls, p, p["lower"], p["upper"], K2.lap_expected(p))
         pt.meas = {"scale": s, "prec": prec}
+        if s != s and p["sensitivity"] > 0:
+            # no output of this mechanism moved with the scripted noise (everything came back on a bound, or constant):
+            # the noise these classes add is Laplace.randomise's (they call super().randomise) — read its scale off the
+            # plain Laplace sampler with the same (epsilon, delta, sensitivity) so that the post-processing MAP can still be
+            # probed below; the moments themselves are then not compared (no law is built from a borrowed scale)
+            base = {k: p[k] for k in ("epsilon", "delta", "sensitivity")}
+            s0, prec0, _ = K2.measure_laplace_scale(M.Laplace, base)
+            if s0 > 0 and math.isfinite(s0):
+                pt.meas = {"scale": s0, "prec": prec0, "scale_borrowed_from_plain_laplace": True}
+                probe_map(pt)
+                pt.meas["scale"] = float("nan")
         if s > 0 and math.isfinite(s):
             f = cl.truncated_laplace if pt.mech == "LaplaceTruncated" else cl.folded_laplace
             pt.law = f(x, d(s), d(p["lower"]), d(p["upper"]))
